@@ -120,6 +120,14 @@ func (e *PathMatchExpression) parsex(l *lex) {
 //	   [c, d, e, f]
 //	   [c, d, g, h]
 func (e *PathMatchExpression) expandPaths(sub *PathMatchExpression) {
+	if len(e.paths) == 0 {
+		// a group at the very start: nothing to prefix
+		e.paths = make([]segments, len(sub.paths))
+		for j, src := range sub.paths {
+			e.paths[j] = append(segments{}, src...)
+		}
+		return
+	}
 	expanded := make([]segments, len(e.paths)*len(sub.paths))
 	for i, dest := range e.paths {
 		for j, src := range sub.paths {
